@@ -189,24 +189,35 @@ func c01Build(t testing.TB, own *c01wire.Key, c c01Cfg, initiator bool, other, t
 	case "different", "disabled":
 		p = third
 	}
-	var st sec.SecureTransport = tpt
-	if c.Entry == "ST" {
-		var opts []SessionOption
-		if c.Prologue != "" {
-			opts = append(opts, Prologue(c01Prologue(c.Prologue)))
-		}
-		if c.EDH {
-			opts = append(opts, EarlyData(&c01EDH{}, &c01EDH{}))
-		}
-		if c.Expect == "disabled" {
-			opts = append(opts, DisablePeerIDCheck())
-		}
-		s, err := tpt.WithSessionOptions(opts...)
-		if err != nil {
-			t.Fatalf("c01: WithSessionOptions: %v", err)
-		}
-		st = s
+	return c01SecureVia(c01SecTransport(t, tpt, c), initiator, p)
+}
+
+// c01SecTransport returns the object the application would hold for configuration c on top of the Transport
+// tpt: the Transport itself, or a SessionTransport made from it (prologue, early data, DisablePeerIDCheck are
+// properties of that object; the expected peer is an argument of each call).
+func c01SecTransport(t testing.TB, tpt *Transport, c c01Cfg) sec.SecureTransport {
+	if c.Entry != "ST" {
+		return tpt
 	}
+	var opts []SessionOption
+	if c.Prologue != "" {
+		opts = append(opts, Prologue(c01Prologue(c.Prologue)))
+	}
+	if c.EDH {
+		opts = append(opts, EarlyData(&c01EDH{}, &c01EDH{}))
+	}
+	if c.Expect == "disabled" {
+		opts = append(opts, DisablePeerIDCheck())
+	}
+	s, err := tpt.WithSessionOptions(opts...)
+	if err != nil {
+		t.Fatalf("c01: WithSessionOptions: %v", err)
+	}
+	return s
+}
+
+// c01SecureVia: one handshake call on st naming p.
+func c01SecureVia(st sec.SecureTransport, initiator bool, p peer.ID) c01Secure {
 	if initiator {
 		return func(ctx context.Context, c net.Conn) (sec.SecureConn, error) { return st.SecureOutbound(ctx, c, p) }
 	}
